@@ -192,6 +192,41 @@ CHECKS.update({
     ),
 })
 
+CHECKS.update({
+    "C06": (
+        "bounded-exhaustive input enumeration + truncation/splice workloads "
+        "under an online trace monitor (pull budget on the lexer_fn proxy) "
+        "and an exception-type oracle",
+        "All sequences up to length 3 (quick) / 4 (thorough) over a 20-symbol "
+        "PVL token alphabet, all strings up to length 4 / 5 over a "
+        "12-character alphabet (both exhaustive), truncations of every "
+        "tests/data label and of generated labels at every offset, random "
+        "corpus splices; x 5 parsers. A load must return or raise "
+        "LexerError/ParseError within 50*(len+2) token pulls (largest ratio "
+        "observed is reported) and 20 s CPU.",
+        "Termination is restated as bounded progress; RecursionError only "
+        "excluded above bracket depth 30; atheris-guided fuzzing is not part "
+        "of the registered commands.",
+        "DESIGN.md section 4 C06, 3.5",
+    ),
+    "C08": (
+        "generator-side oracle: the generator removes value tokens, renders "
+        "the text and computes the line of each '=' itself",
+        "For generated documents every subset (<=5 assignments exhaustively, "
+        "sampled beyond) of values is removed - top level, nested, first/last "
+        "in a block, adjacent runs, before block keywords, ';', END, end of "
+        "text - under 3 random layouts; the default loader must return all "
+        "statements in order with placeholders carrying the right line and "
+        "errors == sorted lines; strict PVL/ODL/PDS3 parsers must raise.",
+        "Line = LF count before the '=' + 1 (LF/CRLF layouts only). Two "
+        "listed findings (dash continuation shifts lines; '=' inside a "
+        "nearby comment).",
+        "DESIGN.md section 4 C08",
+    ),
+})
+
+LEVELS = {"C05": "fault_enumeration"}
+
 NOT_YET = "check not built yet in this round (work in progress; see DESIGN.md section 8 build order)"
 
 ALL = [f"C{n:02d}" for n in range(1, 21)]
@@ -210,7 +245,8 @@ def main():
             "evidence_file": f"/verif/evidence/{pid}.json",
             "replay_cmd_template": f"./check {pid} --replay {{path}}",
             "engine": "pvl-runtime-monitors",
-            "level_claimed": {"category": "exploration", "text": text,
+            "level_claimed": {"category": LEVELS.get(pid, "exploration"),
+                              "text": text,
                               "design_ref": ref},
             "level_note": note,
             "technique": "runtime monitoring: " + tech,
